@@ -905,8 +905,12 @@ class SegmentReader(IndexReader):
 # Fake IndexReader class for empty indexes
 
 class EmptyReader(IndexReader):
-    def __init__(self, schema):
+    def __init__(self, schema, generation=None):
         self.schema = schema
+        self._gen = generation
+
+    def generation(self):
+        return self._gen
 
     def __contains__(self, term):
         return False
